@@ -261,8 +261,11 @@ func c17SamePathAfterRestore(c *core.Ctx, idx int) {
 		c.Violation("C17 setup", err.Error(), nil)
 		return
 	}
+	hung := false
 	defer func() {
-		_ = db.Close()
+		if !hung {
+			_ = db.Close()
+		}
 		matches, _ := filepath.Glob(path + "*")
 		for _, m := range matches {
 			_ = os.Remove(m)
@@ -317,7 +320,21 @@ func c17SamePathAfterRestore(c *core.Ctx, idx int) {
 	if fail("reading the first snapshot", err) {
 		return
 	}
-	db.RestoreSnapshot(snapA)
+	// a snapshot that cannot be written (its directory does not exist) fails - and leaves nothing behind that would
+	// keep the restore from going ahead
+	if _, _, err := db.Snapshot(filepath.Join(path+".no-such-dir", "x.snap")); err == nil {
+		c.Violationf("C17 a snapshot into a directory that does not exist reports success", nil, "")
+	}
+	restored := make(chan struct{})
+	go func() { defer close(restored); db.RestoreSnapshot(snapA) }()
+	select {
+	case <-restored:
+	case <-time.After(45 * time.Second):
+		hung = true
+		c.Violationf("C17 a restore after a failed snapshot does not finish", map[string]any{"waited_s": 45}, "RestoreSnapshot still running after 45 s (a failed Db.Snapshot came before it)")
+		return
+	}
+	c.Count("restores_after_a_failed_snapshot", 1)
 	if got := get(db); got != "A" {
 		c.Violationf("C17 restore of the first snapshot", nil, "state %q, expected A", got)
 		return
